@@ -47,7 +47,7 @@ def parse_unit(path):
             elif kind == 'sig':
                 f['wrapper_sig'] = text.strip()
             elif kind == 'anchor':
-                f['anchors'].append(text.strip())
+                f['anchors'].append((text.strip(), arg or {}))
             elif kind == 'top':
                 f['top'] = _tag(text, 'GHOST')
             elif kind == 'bottom':
@@ -130,7 +130,7 @@ def parse_unit(path):
         elif word == 'sig':
             sec = ('sig', None)
         elif word == 'anchor':
-            sec = ('anchor', None)
+            sec = ('anchor', parse_kv(rest) if rest.strip() else None)
         elif word == 'endfn':
             unit['chunks'].append(('fn', cur_fn, ln))
             cur_fn = None
